@@ -49,7 +49,7 @@ def run_mutant(m, tier='quick'):
         s = open(path).read()
         if m['old'] not in s:
             return {'name': m['name'], 'error': 'pattern not found'}
-        open(path, 'w').write(s.replace(m['old'], m['new'], 1))
+        open(path, 'w').write(s.replace(m['old'], m['new'], -1 if m.get('all') else 1))
         out = {'name': m['name'], 'results': {}}
         for prop in m['props']:
             rc, viol, err, wall = run_check(prop, d, tier)
